@@ -1,6 +1,7 @@
 package eng
 
 import (
+	"sort"
 	"bytes"
 	"context"
 	"fmt"
@@ -87,11 +88,15 @@ func (e *Engine) BuildScripts(fr *FuncResult, timeoutMS int, maxChecks int) []st
 			terms = append(terms, le.T)
 		}
 	}
+	lemmas := e.sumLemmas(terms)
 	sc := e.tb.NewScript()
-	sc.Prepare(terms)
+	sc.Prepare(append(append([]*Term{}, terms...), lemmas...))
 	header := smtPrelude + sc.Header()
 	if strings.Contains(header, "(declare-fun idx ") {
 		header += idxAxiom
+	}
+	for _, l := range lemmas {
+		header += "(assert " + sc.TermText(l) + ")\n"
 	}
 	root := buildLogTree(fr.Log)
 	var scripts []string
@@ -213,12 +218,17 @@ func (e *Engine) RelaxedScript(o *Obl, vals []*Term) string {
 }
 
 // StandaloneScript renders one obligation as a self-contained query.
+var scriptMu sync.Mutex // script construction may create terms (summation lemmas): the term bank is not thread-safe
+
 func (e *Engine) StandaloneScript(o *Obl, withModel bool, vals []*Term) string {
+	scriptMu.Lock()
+	defer scriptMu.Unlock()
 	terms := append([]*Term{}, o.PC...)
 	terms = append(terms, o.Goal)
 	terms = append(terms, vals...)
+	lemmas := e.sumLemmas(terms)
 	sc := e.tb.NewScript()
-	sc.Prepare(terms)
+	sc.Prepare(append(append([]*Term{}, terms...), lemmas...))
 	var sb strings.Builder
 	if withModel {
 		sb.WriteString("(set-option :produce-models true)\n")
@@ -227,6 +237,9 @@ func (e *Engine) StandaloneScript(o *Obl, withModel bool, vals []*Term) string {
 	sb.WriteString(sc.Header())
 	if strings.Contains(sc.Header(), "(declare-fun idx ") {
 		sb.WriteString(idxAxiom)
+	}
+	for _, l := range lemmas {
+		sb.WriteString("(assert " + sc.TermText(l) + ")\n")
 	}
 	for _, t := range o.PC {
 		sb.WriteString("(assert " + sc.TermText(t) + ")\n")
@@ -555,4 +568,136 @@ func (e *Engine) Discharge(results []*FuncResult, so SolveOpts) {
 	if len(rest) > 0 {
 		twoStages(rest)
 	}
+}
+
+// sumLemmas returns the background facts about finite sums for the psum terms that occur in the given terms:
+//   - the definition of every summand array (forall k. arr[k] = body(k)),
+//   - one unfolding step of every occurring psum(arr, n): empty sum, and psum(arr, n) = psum(arr, n-1) + arr[n-1] for n > 0,
+//   - congruence for every pair of occurring (or unfolded) sums: equal length and pointwise equal summands give equal sums.
+// All are valid facts about the mathematical sum (the last one by induction on n, which the solver cannot do itself); they are
+// listed once in the assumption ledger as the summation lemma schema.
+func (e *Engine) sumLemmas(terms []*Term) []*Term {
+	tb := e.tb
+	if tb.SumDefs == nil {
+		return nil
+	}
+	seen := map[*Term]bool{}
+	var psums []*Term
+	arrs := map[string]bool{}
+	var walk func(t *Term)
+	walk = func(t *Term) {
+		if t == nil || seen[t] {
+			return
+		}
+		seen[t] = true
+		if t.Op == "app" && t.Name == "psum" {
+			psums = append(psums, t)
+		}
+		if (t.Op == "const" || t.Op == "app") && strings.HasPrefix(t.Name, "sumarr!") {
+			if !arrs[t.Name] {
+				arrs[t.Name] = true
+				if d, ok := tb.SumDefs[t.Name]; ok {
+					walk(d.Body) // nested sums inside the summand
+				}
+			}
+		}
+		for _, a := range t.Args {
+			walk(a)
+		}
+		for _, p := range t.Pats {
+			for _, q := range p {
+				walk(q)
+			}
+		}
+	}
+	for _, t := range terms {
+		walk(t)
+	}
+	if len(psums) == 0 && len(arrs) == 0 {
+		return nil
+	}
+	e.Assumed["summation lemma schema: one-step unfolding of every occurring sum and congruence of sums with pointwise equal summands (valid by induction on the length, instantiated by the generator)"] = true
+	var out []*Term
+	var names []string
+	for n := range arrs {
+		names = append(names, n)
+	}
+	sort.Strings(names)
+	for _, n := range names {
+		d := tb.SumDefs[n]
+		if d == nil {
+			continue
+		}
+		sel := tb.Select(d.Arr, d.Var)
+		out = append(out, tb.Forall(append(append([]*Term{}, d.Free...), d.Var), tb.Eq(sel, d.Body), []*Term{sel}))
+	}
+	// close over the variables of enclosing quantifiers: a sum under a quantifier is a family of sums
+	closeOver := func(fvs []*Term, fact *Term, pats ...[]*Term) *Term {
+		if len(fvs) == 0 {
+			return fact
+		}
+		return tb.Forall(fvs, fact, pats...)
+	}
+	// unfolding (one level); the unfolded predecessors take part in the congruence pairs
+	all := append([]*Term{}, psums...)
+	inAll := map[*Term]bool{}
+	for _, p := range psums {
+		inAll[p] = true
+	}
+	for _, p := range psums {
+		arr, n := p.Args[0], p.Args[1]
+		fv := tb.FreeBound(p)
+		out = append(out, closeOver(fv, tb.Implies(tb.Le(n, tb.Int(0)), tb.Eq(p, tb.Int(0))), []*Term{p}))
+		pred := tb.Psum(arr, tb.Sub(n, tb.Int(1)))
+		out = append(out, closeOver(fv, tb.Implies(tb.Gt(n, tb.Int(0)), tb.Eq(p, tb.Add(pred, tb.Select(arr, tb.Sub(n, tb.Int(1)))))), []*Term{p}))
+		if !inAll[pred] {
+			inAll[pred] = true
+			all = append(all, pred)
+			out = append(out, closeOver(fv, tb.Implies(tb.Le(pred.Args[1], tb.Int(0)), tb.Eq(pred, tb.Int(0))), []*Term{pred}))
+		}
+	}
+	if len(all) > 40 {
+		all = all[:40]
+	}
+	for i := 0; i < len(all); i++ {
+		for j := i + 1; j < len(all); j++ {
+			a, b := all[i], all[j]
+			fa, fb := tb.FreeBound(a), tb.FreeBound(b)
+			var fvs []*Term
+			var pats [][]*Term
+			switch {
+			case len(fa) == 0 && len(fb) == 0:
+			case len(fa) == len(fb):
+				// two families over the same number of quantified variables: compare them at the same point
+				m := map[*Term]*Term{}
+				same := true
+				for x := range fa {
+					if fa[x] != fb[x] {
+						same = false
+					}
+					m[fb[x]] = fa[x]
+				}
+				if !same {
+					b = tb.Subst(b, m)
+				}
+				fvs = fa
+				pats = [][]*Term{{a}, {b}}
+			case len(fa) == 0:
+				fvs = fb
+				pats = [][]*Term{{b}}
+			case len(fb) == 0:
+				fvs = fa
+				pats = [][]*Term{{a}}
+			default:
+				continue
+			}
+			if a == b || (a.Args[0] == b.Args[0]) {
+				continue // same array: equality of lengths gives equality of sums by congruence of the function itself
+			}
+			k := tb.BoundVar("ks", SInt)
+			same := tb.Forall([]*Term{k}, tb.Implies(tb.And(tb.Le(tb.Int(0), k), tb.Lt(k, a.Args[1])), tb.Eq(tb.Select(a.Args[0], k), tb.Select(b.Args[0], k))))
+			out = append(out, closeOver(fvs, tb.Implies(tb.And(tb.Eq(a.Args[1], b.Args[1]), same), tb.Eq(a, b)), pats...))
+		}
+	}
+	return out
 }
